@@ -418,7 +418,7 @@ func (this *Dataset) Search(ctx context.Context, query math.Vector, k uint) (ind
 	// The channels must not be closed: a closed error channel is always ready and
 	// would end the collection below with a nil error and a partial result.
 
-	result := make(index.SearchResult, 0, int(k)*len(nodePartitions))
+	result := make(index.SearchResult, 0)
 	for i := 0; i < len(nodePartitions); i++ {
 		select {
 		case items := <-resultCh:
@@ -435,6 +435,10 @@ func (this *Dataset) Search(ctx context.Context, query math.Vector, k uint) (ind
 }
 
 func (this *Dataset) SearchPartitions(ctx context.Context, partitionIds []uuid.UUID, query math.Vector, k uint) (index.SearchResult, error) {
+	if err := this.checkDimension(&query); err != nil {
+		return nil, err
+	}
+
 	var err error
 	partitions := make([]*partition, len(partitionIds))
 	for i, partitionId := range partitionIds {
@@ -458,7 +462,7 @@ func (this *Dataset) SearchPartitions(ctx context.Context, partitionIds []uuid.U
 
 	// See Search: the channels must not be closed while results are collected.
 
-	result := make(index.SearchResult, 0, int(k)*len(partitions))
+	result := make(index.SearchResult, 0)
 	for i := 0; i < len(partitions); i++ {
 		select {
 		case items := <-resultCh:
@@ -541,7 +545,7 @@ func (this *Dataset) searchPartitionsOnNode(ctx context.Context, nodeId uint64, 
 		return
 	}
 
-	result := make(index.SearchResult, 0, k)
+	result := make(index.SearchResult, 0)
 	for {
 		item, err := stream.Recv()
 		if err == io.EOF {
